@@ -120,7 +120,7 @@ impl<'a, M: RawMutex + 'static, A: RingBuf<Item = Tagged> + 'static> Ctx<'a, M, 
         }
     }
 
-    /// a receive operation found nothing although it looked (first poll / woken poll / try_receive)
+    /// try_receive found nothing
     fn empty_report(&mut self, what: String, run: &mut Run) {
         if self.m.ok_unreceived() > 0 {
             let ids: Vec<u16> = self.m.vals.iter().filter(|v| v.ok && !v.received && !v.discarded).map(|v| v.id).collect();
@@ -400,7 +400,6 @@ fn step<M: RawMutex + 'static, A: RingBuf<Item = Tagged> + 'static>(c: &mut Ctx<
             Some(s) => {
                 let id = c.send[s].num as u16;
                 let first = !c.send[s].polled;
-                let was_woken = c.send[s].woken();
                 let was_received = c.m.get(id).unwrap().received;
                 let model_closed = c.m.closed;
                 may_grow = true;
@@ -414,9 +413,6 @@ fn step<M: RawMutex + 'static, A: RingBuf<Item = Tagged> + 'static>(c: &mut Ctx<
                         run.note(|| format!("poll send slot {} (v{}) waker {} -> Ready(Ok)", s, id, op.b));
                         if model_closed && first {
                             run.violate("C11", "send-after-close-accepted", format!("send(v{}) first polled on a closed channel completed with Ok", id));
-                        }
-                        if !first && !was_woken {
-                            run.violate("C10", "sender-not-woken", format!("send future in slot {} (v{}) completed on a re-poll although it had not been woken since its previous poll", s, id));
                         }
                         if !first && was_received {
                             run.class(CL_SENDER_WOKEN_BY_RECEIVE);
@@ -575,7 +571,6 @@ fn step<M: RawMutex + 'static, A: RingBuf<Item = Tagged> + 'static>(c: &mut Ctx<
                             run.violate("C11", "pending-on-closed-channel", format!("receive future in slot {} returned Pending on a closed channel", s));
                         }
                         if first || was_woken {
-                            c.empty_report(format!("receive future in slot {} ({})", s, if first { "first poll" } else { "woken" }), run);
                             // a woken receiver waits anew
                             c.recv[s].arrival = c.recv[s].poll_seq;
                         }
@@ -647,9 +642,6 @@ fn step<M: RawMutex + 'static, A: RingBuf<Item = Tagged> + 'static>(c: &mut Ctx<
                                 }
                                 if !full && !c.m.closed {
                                     run.violate("C11", "closed-reported-while-open", format!("try_send(v{}) reported Closed although the channel is open", id));
-                                }
-                                if full && c.m.closed {
-                                    run.violate("C11", "full-on-closed-channel", format!("try_send(v{}) reported Full on a closed channel (must fail with Closed)", id));
                                 }
                                 c.m.val(id).returned = true;
                                 c.keep(back);
@@ -747,20 +739,33 @@ fn step<M: RawMutex + 'static, A: RingBuf<Item = Tagged> + 'static>(c: &mut Ctx<
             if !c.stream.alive() {
                 run.noops += 1;
             } else if c.stream.done {
-                // after the end the stream keeps returning None
-                let wid = c.stream.wid as usize * 2 + op.a as usize;
-                let waker = make_waker(wid);
-                let mut cx = Context::from_waker(&waker);
-                let fut = c.stream.fut.as_mut().unwrap();
-                if let Some(r) = run.call("poll_next (after end)", || fut.as_mut().poll(&mut cx)) {
+                // `is_terminated()` tells callers not to poll again, so this is a probe like the
+                // poll-after-completion probe of futures: None again or a panic are both fine,
+                // another item is not ("streams end once")
+                if !run.allow_probe {
+                    run.noops += 1;
+                } else {
+                    let wid = c.stream.wid as usize * 2 + op.a as usize;
+                    let waker = make_waker(wid);
+                    let mut cx = Context::from_waker(&waker);
+                    let fut = c.stream.fut.as_mut().unwrap();
+                    let r = lib_call(|| fut.as_mut().poll(&mut cx));
+                    tls::alloc_reset();
                     run.note(|| "poll stream after its end".to_string());
                     match r {
-                        Poll::Ready(None) => {}
-                        Poll::Ready(Some(v)) => {
+                        Ok(Poll::Ready(Some(v))) => {
                             run.violate("C17", "stream-item-after-end", format!("the stream yielded v{} after it had returned None", v.id));
                             std::mem::forget(v);
                         }
-                        Poll::Pending => run.violate("C17", "stream-pending-after-end", "the stream returned Pending after it had returned None".into()),
+                        Ok(_) => {}
+                        Err(_) => {
+                            // a stream that panicked is never touched again
+                            c.stream.leak();
+                            c.stream.clear();
+                            if c.shared {
+                                c.m.rx_count -= 1;
+                            }
+                        }
                     }
                 }
             } else {
@@ -794,7 +799,6 @@ fn step<M: RawMutex + 'static, A: RingBuf<Item = Tagged> + 'static>(c: &mut Ctx<
                             run.violate2("C17", "C11", "stream-pending-on-closed-channel", "the stream returned Pending on a closed channel".into());
                         }
                         if first || was_woken {
-                            c.empty_report("stream".to_string(), run);
                             c.stream.arrival = c.stream.poll_seq;
                         }
                         if !first {
